@@ -232,9 +232,9 @@ type flattenScenario struct {
 
 func (f *flattenScenario) Key() string { return f.T + "," + f.S + "," + f.H + "," + f.H2 + "," + f.C }
 
-var scenarioFiles = map[string]string{"root": "api/root.json", "aux1": "api/sub/a.json", "aux2": "api/sub/deep/b.json", "aux3": "common/c.json",
-	// decoys (never referenced): what a wrongly rebased "../a.json" / "../../common/c.json" would find
-	"aux4": "api/sub/deep/a.json", "aux5": "api/sub/common/c.json"}
+var scenarioFiles = map[string]string{"root": "api/root.json", "aux1": "api/sub/a.json", "aux2": "api/sub/deep/b.json", "aux3": "common/root.json", // (same file name as the root document, elsewhere)
+	// decoys (never referenced): what a wrongly rebased "../a.json" / "../../common/root.json" would find
+	"aux4": "api/sub/deep/a.json", "aux5": "api/sub/common/root.json"}
 
 // corpusKeys reads corpus/flatten.txt: scenario keys that every quick run must include (directed corpus, S4).
 func corpusKeys(name string) map[string]bool {
